@@ -23,6 +23,12 @@ ARCV = {'test': 'TestVerifAssocReceiver', 'comp': 'ar', 'pairs': True, 'quick': 
 SDD = {'test': 'TestVerifShutdown', 'comp': 'sd', 'quick': {'VERIF_N': 400}, 'thorough': {'VERIF_N': 4000},
        'seeds': {'quick': 1, 'thorough': 8}, 'corpus_glob': 'sd_*.ops'}
 
+# RACK / PTO / TLR scenario generator on the same direct-drive harness (go/harness/rack_test.go): every `as` op is followed by a
+# white-box `as rk` snapshot that Driver/Rack.lean compares with Model/Rack.lean (also on the lines of ASND)
+ARACK = {'test': 'TestVerifAssocRack', 'comp': 'as', 'pairs': True, 'quick': {'VERIF_N': 100, 'VERIF_OPS': 160},
+         'thorough': {'VERIF_N': 400, 'VERIF_OPS': 260}, 'seeds': {'quick': 1, 'thorough': 8}, 'corpus_glob': 'rack_*.ops'}
+
+
 HSD = {'test': 'TestVerifHandshake', 'comp': 'hs', 'quick': {'VERIF_N': 96},
        'thorough': {'VERIF_N': 960}, 'seeds': {'quick': 1, 'thorough': 8}}
 
@@ -42,6 +48,15 @@ RSD = {'test': 'TestVerifReset', 'comp': 'rs', 'quick': {'VERIF_N': 64}, 'thorou
        'seeds': {'quick': 1, 'thorough': 8}, 'corpus_glob': 'rs_*.ops'}
 E2E_API = e2e('api', 'TestVerifE2EAPI')
 E2E_TD = e2e('teardown', 'TestVerifE2ETeardown', nq=400, nt=2000)
+# concurrent API storms inside the bubble run on ONE P (cooperative scheduling: reproducible from the seed; with several Ps
+# go1.26 synctest bubbles occasionally stall for tens of seconds with a runnable goroutine that no P picks up). Real
+# parallelism is left to the native race-detector runs below.
+E2E_ST = e2e('storm', 'TestVerifE2EStorm', nq=250, nt=1500)
+# the storm / teardown programs outside the bubble under the race detector (thorough tier; bounded real time)
+RACE_ST = {'test': 'TestVerifRaceStorm', 'comp': 'e2e', 'mode': 'storm', 'scenario': True, 'race': True, 'tiers': ['thorough'],
+           'thorough': {'VERIF_N': 400, 'VERIF_RACE_BUDGET_S': 150}, 'seeds': {'thorough': 2}}
+RACE_TD = {'test': 'TestVerifRaceTeardown', 'comp': 'e2e', 'mode': 'teardown', 'scenario': True, 'race': True, 'tiers': ['thorough'],
+           'thorough': {'VERIF_N': 400, 'VERIF_RACE_BUDGET_S': 150}, 'seeds': {'thorough': 2}}
 
 E2E_RULE = ('one case = one seeded scenario (options x initial TSNs x streams/policies x message sizes x per-packet fault schedule x heal time) run on a real '
             'association pair under testing/synctest virtual time; distinct by SHA-1 of its full API+wire log; non-trivial = at least 3 distinct event kinds and 5 events')
@@ -68,18 +83,29 @@ SAPI = {'test': 'TestVerifStreamAPI', 'comp': 'sa', 'corpus_glob': 'sapi_*.ops',
 
 PROPS = {
     'C05': {'jobs': [RQ, ARCV]},
-    'C16': {'jobs': [GENF, RQ, ASND, ARCV, RSD]},
+    'C16': {'jobs': [GENF, RQ, ASND, ARACK, ARCV, RSD]},
     'C01': {'jobs': [REASM, ASND, ARCV, E2E_T], 'assumptions': [
         'sender half (Props/C01wire.lean): payload BYTES are not in the sender model (lengths and fragment identity only); that a chunk carries the matching slice of the written buffer is observed by the e2e content hashes',
         'receive-side system theorem (C01_receiver_prefix): chunks are the fragments of the peer\'s messages (universe of Reasm.Sender per stream, fewer than 2^31 TSNs in all), reliable streams only (no FORWARD-TSN, no reset in the run)',
-        'fewer than 2^15 ordered messages of a stream outstanding (SSN half-space; known finding D15); fewer than 2^31 TSNs/MIDs outstanding']},
+        'fewer than 2^15 ordered messages of a stream outstanding (SSN half-space; known finding D15); fewer than 2^31 TSNs/MIDs outstanding',
+        'composition (Props/C01net.lean, Model/NetSys.lean): reliable ordered streams only (openS ordered, relType 0, no unreg; no FORWARD-TSN / reset operation in NetSys); fewer than 2^31 chunks written in all; '
+        'D15 window stated on the run (messages written at most 2^31 / 2^15 ahead of messages read at every step); DATA only: the selection oracle of the sender model is message-contiguous and per-stream FIFO (SelContig; '
+        'proved of the real pending queue in Props/C17, a hypothesis here); toWire assumes a chunk carries the byte slice [i*mp, i*mp+len) of the written payload (the copy in packetize is observed by the e2e content hashes only)']},
     'C11': {'jobs': [REASM, ARCV], 'assumptions': [
         'sum of len(userData) over all chunks ever pushed < 2^63 (uint64 counter / int conversion in subtractNumBytes)',
         'association level: credit formula over the streams REGISTERED in the association table (deviation D13: unread bytes of a reset stream are not counted); '
         'C11_bytes_bound / C11_credit_formula_bounded assume buffer + 40000 x (largest chunk) < 2^32 (bytesQueued is a uint32) and fewer than 2^63 user bytes in total',
         'receive-half model Model/Receiver.lean is hand-written; its straight-line tests are translator-generated; tied by replaying every op of TestVerifAssocReceiver']},
-    'C02': {'jobs': [E2E_T, ASND], 'rule': E2E_RULE},
-    'C06': {'jobs': [SAPI, E2E_PR, E2E_T, E2E_API, REASM, ASND], 'rule': E2E_RULE, 'assumptions': [
+    'C02': {'jobs': [E2E_T, ASND, ARACK], 'rule': E2E_RULE, 'assumptions': [
+        'theorems (Props/C02rack.lean) are about the loss-recovery COMPONENT Model/Rack.lean (RACK, RACK timer, PTO, TLR gate), not about end-to-end liveness; the system-level claim stays with the e2e predicate',
+        'Model/Rack.lean is hand-written control flow over translator-generated conditions and formulas (go/extract/exprs.go, block RACK / PTO / TLR); tied by comparing a white-box snapshot of the real Association with the model after EVERY op of the direct-drive harness (rk lines)',
+        'environment of the component (quantified over in the theorems, computed from the sender model / RTO model in the driver): SRTT readings, inFastRecovery, t3RTX.isRunning() (taken from the log), pending-queue size, which chunks a gather (re)transmits and abandons; the clock is taken from the log',
+        'reachable-state theorems (C02_rack_invariant, C02_rack_timer_inert) assume RunOK: a new chunk gets a TSN that is not in flight, only in-flight chunks are retransmitted, a valid SRTT reading is not negative (proved for the generated conversion over Rat)',
+        'time.Time is modelled as Int nanoseconds with the zero Time = 0 and every real reading > 0; float64 SRTT enters through the generated conversion sites (Rat in theorems, Float in the driver)',
+    ]},
+    'C06': {'jobs': [SAPI, E2E_PR, E2E_T, E2E_API, REASM, ASND, ARACK, RQ], 'rule': E2E_RULE, 'assumptions': [
+        '"at most once" rests on the duplicate filter of the association (receive bitmap, incl. the ranges a FORWARD-TSN clears): the rq correspondence job of C05 runs here too',
+        'theorems (Props/C06rack.lean) cover ONE clause only: no loss-recovery path (RACK on SACK, RACK timer, PTO, T3 mark-all) flags an acknowledged or abandoned chunk for retransmission, on Model/Rack.lean (tied by the rk snapshots of the direct-drive harness); integrity / at-most-once / policy bounds remain e2e + Reasm + PolicySpec',
         'theorems cover the API-visible half (DCEP, abandonment decision, retransmission bounds); the receive half (at most once, intact, subsequence) rests on Reasm + e2e predicates',
         'L0 models Sender + Sapi (hand-written, Gen.* decision sites regenerated); oracles: burst budget, pending-queue selection, RACK/PTO marks, T3 expiries per tick, which parked writer wakes',
         'bounds hold while the policy is in force: FORWARD-TSN negotiated (prEnabled), stream in the association table, no openS/setRel on it during the run; MTU < 2^30',
@@ -106,7 +132,8 @@ PROPS = {
         'C14_eof_after_data judges an identifier while the applications re-open it only in states where both directions were reset (Sys.quiet, evaluated on the real state by the harness as q=)',
         'association shutdown / abort and blocking calls are outside the model (e2e reset scenarios cover them by exploration)',
     ]},
-    'C10': {'jobs': [ASND, E2E_T], 'assumptions': [
+    'C10': {'jobs': [ASND, ARACK, E2E_T], 'assumptions': [
+        'TLR burst budget (Props/C10tlr.lean): theorems about tlrAllowSendLocked as generated (Model/Rack.lean), proved equal to the gate the sender model is replayed with; the budget/active oracle values of every gather are now CHECKED against Rack.tlrBudgetScaled, the RACK/PTO marks against the RACK model (rk lines); the bound is per gather - the code has no per-RTT accounting',
         'L0 model Model/Sender.lean is hand-written; its window tests / updates / congestion formulas / chunk sizes are translator-generated Gen.* defs; the rest is tied by comparing every op of the direct-drive harness',
         'oracles (quantified over in the theorems, recorded from the real code in the harness): TLR burst budget, pending-queue selection, RACK/PTO loss marks, T3 expiries during a clock tick',
         'window theorems assume no uint32 wrap (ghost flag wrapWin: < 2^32 bytes in flight, cwnd + increment < 2^32) and MTU < 2^30',
@@ -125,7 +152,19 @@ PROPS = {
         'run theorems start from any state satisfying WInv / GInv (initial state of every configuration with MTU < 2^30: C18_invariant_reachable)',
         'C18_parked_write_rollback: equality up to the two ghost id allocators nextWid / nextMsg',
         'observation (not a C18 clause): while a write is parked bufferedAmount includes its bytes, and the roll-back subtracts them without onBufferReleased - a low-threshold crossing can be skipped']},
-    'C09': {'jobs': [E2E_TD, E2E_SD, E2E_HS], 'rule': E2E_RULE},
+    'C09': {'jobs': [E2E_TD, E2E_SD, E2E_HS, E2E_ST, TIMER], 'rule': E2E_RULE, 'assumptions': [
+        '"all timers stop": the timer automaton correspondence of C19 (a closed or stopped timer reports nothing, even when its expiry is already in flight) runs here too',
+        'theorems are about the hand-written transition system Model/Teardown.lean; its choreography is read off translator facts on every run (C09_choreography_matches_code)',
+        'sync.Mutex / sync.Cond / channel / sync.Once semantics as specified by Go; one constructor call per association; API calls only after it returned; '
+        'completeHandshake attempted at most once; stream identifiers not reused after a reset',
+        '"promptly" = without further help from the environment; wall-clock bounds are not modelled',
+        'real goroutine interleavings are sampled by the teardown scenarios (every goroutine of the package must be gone when the synctest bubble ends)']},
+    'C20': {'jobs': [E2E_ST, E2E_TD, RACE_ST, RACE_TD], 'rule': E2E_RULE, 'assumptions': [
+        'lock-order, callback, entry-point and blocking-site theorems are decided on facts the translator derives from the source on every run '
+        '(syntactic, intra-package; mutexes identified by receiver type and field; interface calls resolved by method set)',
+        'data-race freedom is NOT covered by any theorem (it cannot be expressed by an executable Lean model): the race-detector runs of the thorough tier are supporting evidence only',
+        'goroutine interleavings are sampled (storm scenarios under testing/synctest with several Ps; native runs under -race), not enumerated',
+        'the linearisation theorem is about ONE mutex; the per-stream lock and the timer mutexes guard state of their own']},
     'C19': {'jobs': [RTO, TIMER, ARCV], 'assumptions': [
         'float64 arithmetic of rtoManager / calculateNextTimeout is proved over Rat; the Float instance is compared with the Go code bit for bit on sampled sequences',
         'timer automaton theorems assume fewer than 255 fired callbacks wait for the timer mutex at once (pending is a uint8; witness C19_pending_wrap_witness, known finding K19-pending-uint8)',
